@@ -22,11 +22,17 @@ from fv import common, design, design_trace, gen, rows, tlc
 from fv.report import Report
 
 
+# the caller happens to have ordinary objects named like the helpers: the built-in helpers still win (C11), so
+# every alias keeps its meaning
+SHADOW = {"p": 0.5, "I": np.eye(2), "B": 200, "T": 1.5, "S": "s", "C": None, "binary": 4, "prop": 5, "proportion": 6, "offset": 7, "standardize": 8, "scale": 9}
+
+
 def _world(rng):
     w = gen.gen_world(rng, nmin=5, nmax=12)
     n = w.n
     nn = [rng.randint(1, 6) for _ in range(n)]
     ss = [rng.randint(0, v) for v in nn]
+    w.df["w3"] = np.asarray(w.df["w"], dtype=float).astype(np.int64) - 1
     w.df["s"] = np.array(ss, dtype=np.int64)
     w.df["nn"] = np.array(nn, dtype=np.int64)
     w.cols["s"] = {"kind": "num", "v": ss, "decl": []}
@@ -71,7 +77,7 @@ def _events(args):
     rhs_extra = rng.choice(["", " + z", " + g", " + z:g"])
 
     def build_event(text, labels, used, tag):
-        st, dm = design.build(text, w.df)
+        st, dm = design.build(text, w.df, extra_namespace=dict(SHADOW))
         ev = {"id": base_id, "kind": "build", "frame": train, "used": used, "policy": "drop", "status": "ok", "views": True, "resp_expected": "~" in text,
               "common": dict(gen.EMPTY), "group": dict(gen.EMPTY), "resp": dict(gen.EMPTY), "tag": tag}
         if st != "ok":
@@ -163,7 +169,7 @@ def _events(args):
         else:
             call, pieces = f"{alias}(s, nn)", [[["s", 0]], [["nn", 0]]]
         text = f"{call} ~ x{rhs_extra}"
-        st, dm = design.build(text, w.df)
+        st, dm = design.build(text, w.df, extra_namespace=dict(SHADOW))
         ev = {"id": base_id, "kind": "build", "frame": train, "used": ["s", "x"], "policy": "drop", "status": "ok", "views": True, "resp_expected": True,
               "common": dict(gen.EMPTY), "group": dict(gen.EMPTY), "resp": dict(gen.EMPTY), "tag": "prop:" + form}
         if st != "ok":
@@ -179,12 +185,16 @@ def _events(args):
             out.append((pe, text + "  [new data]"))
     elif kind == "alias":
         a, b = rng.choice([("B(f, 'a')", "binary(f, 'a')"), ("B(w)", "binary(w)"), ("standardize(x)", "scale(x)"), ("T(f, 'b')", "C(f, Treatment('b'))"),
-                           ("S(h, 'A x')", "C(h, Sum('A x'))"), ("S(g)", "C(g, Sum)"), ("T(g)", "C(g, Treatment)"), ("T(g)", "C(g)"), ("{x + z}", "I(x + z)")])
+                           ("S(h, 'A x')", "C(h, Sum('A x'))"), ("S(g)", "C(g, Sum)"), ("T(g)", "C(g, Treatment)"), ("T(g)", "C(g)"), ("{x + z}", "I(x + z)"),
+                           # a reference / omitted level that is the number 0 (not the smallest level: w3 = w - 1)
+                           ("T(w3, 0)", "C(w3, Treatment(0))"), ("S(w3, 0)", "C(w3, Sum(0))"), ("T(w3, ref=0)", "C(w3, Treatment(reference=0))")])
         ta, tb = f"y ~ {a}{rhs_extra}", f"y ~ {b}{rhs_extra}"
-        sa, da = design.build(ta, w.df)
-        sb, db = design.build(tb, w.df)
+        sa, da = design.build(ta, w.df, extra_namespace=dict(SHADOW))
+        sb, db = design.build(tb, w.df, extra_namespace=dict(SHADOW))
         ev = {"id": base_id, "kind": "rows", "status": "ok", "a": [], "b": [], "map": [], "la": [], "lb": [], "tag": "alias"}
-        if sa != "ok" or sb != "ok":
+        if sa != "ok" and sb != "ok":
+            pass   # both spellings refuse (e.g. the reference level does not occur in this world): still synonyms
+        elif sa != "ok" or sb != "ok":
             ev["status"] = "alias_build_failed:" + type(da if sa != "ok" else db).__name__
         else:
             ma, la = rows.stack(da)
@@ -198,8 +208,8 @@ def _events(args):
             ev["la"], ev["lb"] = rows.label_ids(la2, lb2)
         out.append((ev, ta + "   vs   " + tb))
         pa, pb = ("p(s, nn)", "prop(s, nn)") if rng.random() < 0.5 else ("proportion(s, 7)", "prop(s, 7)")
-        sa, da = design.build(f"{pa} ~ x", w.df)
-        sb, db = design.build(f"{pb} ~ x", w.df)
+        sa, da = design.build(f"{pa} ~ x", w.df, extra_namespace=dict(SHADOW))
+        sb, db = design.build(f"{pb} ~ x", w.df, extra_namespace=dict(SHADOW))
         ev2 = {"id": base_id + 1, "kind": "rows", "status": "ok", "a": [], "b": [], "map": [], "la": [], "lb": [], "tag": "alias_prop"}
         if sa != "ok" or sb != "ok":
             ev2["status"] = "alias_build_failed"
@@ -291,7 +301,7 @@ def _helper_case(args):
             text, part = f"{call} ~ x", "response"
         base = {"helper": h, "formula": text, "rendering": rd, "train": {k2: [str(v) for v in train[k2]] for k2 in train.columns if k2 != "y"},
                 "new": {k2: [str(v) for v in new[k2]] for k2 in new.columns if k2 != "y"}}
-        st, dm = design.build(text, train)
+        st, dm = design.build(text, train, extra_namespace=dict(SHADOW))
         if c["refused"]:
             if st == "ok":
                 probs.append(({"clause": "helper_accepted_input_it_must_refuse", "helper": h}, base))
